@@ -1,3 +1,4 @@
+import copy
 import re
 import os.path
 
@@ -181,6 +182,10 @@ class AkomaNtosoParser:
         """
         if isinstance(xml, (str, bytes)):
             xml = etree.fromstring(xml)
+        else:
+            # the stylesheet strips whitespace-only text nodes from the tree it transforms,
+            # so work on a copy rather than change the caller's document
+            xml = copy.deepcopy(xml)
 
         # load xslt
         fname = os.path.join(os.path.dirname(__file__), 'akn_text.xsl')
